@@ -53,7 +53,7 @@ class SelSite:
     def klass(self):
         if self.kind == "push":
             return "first-match"
-        if self.selector in EXTREMUM:
+        if self.selector in EXTREMUM or self.selector.startswith("sorted-"):
             return "extremum"
         if self.selector in LAST:
             return "last"
@@ -275,8 +275,26 @@ def _flows_to_return(fn, l, depth=0, seen=None):
     return False
 
 
+def _vec_root(fn, op, depth=0):
+    """the Vec local a slice / reference operand views (through refs, copies and Deref)"""
+    l = op_local(op)
+    if l is None or depth > 10:
+        return None
+    ds = fn.whole_defs(l)
+    if len(ds) == 1 and ds[0][0] == "assign":
+        rv = ds[0][3]
+        if rv[0] == "ref" and all(e == "*" for e in place_projs(rv[2])):
+            return _vec_root(fn, ["cp", rv[2]], depth + 1) if place_local(rv[2]) != l else l
+        if rv[0] == "use" and op_place(rv[1]) is not None and all(e == "*" for e in place_projs(op_place(rv[1]))):
+            return _vec_root(fn, rv[1], depth + 1)
+    if len(ds) == 1 and ds[0][0] == "call" and ds[0][2]["args"] and re.search(r"Deref(Mut)?>?::deref(_mut)?$|::as_slice$|::as_mut_slice$", ds[0][2].get("res") or ""):
+        return _vec_root(fn, ds[0][2]["args"][0], depth + 1)
+    return l
+
+
 def find_sites(crate, fn):
     sites = []
+    dom = None
     # ---- call-based selectors
     for bb, c in fn.calls():
         m = callee_method(c)
@@ -308,6 +326,22 @@ def find_sites(crate, fn):
             s.fields -= set(s.key_field.split(",")) - _pred_fields(crate, c, elem)
         s.to_return = _flows_to_return(fn, place_local(c["dest"]))
         s.from_param = bool(c["args"]) and _collection_is_param(fn, c["args"][0], elem)
+        if m in ("first", "last") and c["args"]:
+            # `v.sort_by_key(|d| d.k); v.first()` is a minimum by k, not a first match
+            root = _vec_root(fn, c["args"][0])
+            if root is not None:
+                if dom is None:
+                    dom = fn.dominators()
+                for bb2, c2 in fn.calls():
+                    if re.search(r"::sort(_unstable)?_by(_key|_cached_key)?$", c2.get("res") or "") and c2["args"] \
+                            and _vec_root(fn, c2["args"][0]) == root and bb2 in dom.get(bb, set()):
+                        fl = set()
+                        for cid, _loc in c2.get("clos", []):
+                            cf = crate.fns.get(cid)
+                            if cf is not None:
+                                fl |= elem_fields_in(cf, elem)
+                        s.selector = "sorted-" + m
+                        s.key_field = ",".join(sorted(fl)) or None
         sites.append(s)
     # ---- loops
     dom = None
